@@ -3,7 +3,7 @@
 import glob, json, os, re, subprocess
 env = dict(os.environ, VERIF_NO_EVIDENCE="1")
 rows = []
-for d in sorted(glob.glob('/verif/seeded/C*-*')):
+for d in sorted(glob.glob(os.environ.get("SEEDED_GLOB","/verif/seeded/C*-*"))):
     meta = json.load(open(d + '/meta.json'))
     assert subprocess.run("git status --porcelain", shell=True, cwd="/repo", capture_output=True, text=True).stdout.strip() == ""
     if subprocess.run(f"git apply {d}/patch.diff", shell=True, cwd="/repo").returncode != 0:
